@@ -1,15 +1,9 @@
 import JominiModel.Props.C11
-<<<<<<< HEAD
 #print axioms Jomini.Props.C11.C11_bool
 #print axioms Jomini.Props.C11.C11_u64_digits
-=======
-open Jomini.Props.C11
-#print axioms C11_bool
-#print axioms C11_u64_digits
-#print axioms C11_u64
-#print axioms C11_u64_out_of_range
-#print axioms C11_u64_foreign
-#print axioms C11_i64
-#print axioms C11_i64_out_of_range
-#print axioms C11_i64_foreign
->>>>>>> agent/scalenc
+#print axioms Jomini.Props.C11.C11_u64
+#print axioms Jomini.Props.C11.C11_u64_out_of_range
+#print axioms Jomini.Props.C11.C11_u64_foreign
+#print axioms Jomini.Props.C11.C11_i64
+#print axioms Jomini.Props.C11.C11_i64_out_of_range
+#print axioms Jomini.Props.C11.C11_i64_foreign
